@@ -1,0 +1,57 @@
+//go:build verif && unix
+
+package term
+
+import (
+	"time"
+
+	"src.elv.sh/pkg/ui"
+)
+
+// This file is only built with the "verif" tag. It exposes the unexported
+// input decoder to an out-of-tree verification harness with an injectable
+// byte source; it adds no behaviour.
+
+// VerifByteReader is the byte source readEvent and readRune read from (the
+// unexported byteReaderWithTimeout).
+type VerifByteReader interface {
+	ReadByteWithTimeout(timeout time.Duration) (byte, error)
+}
+
+type verifFileReader struct{ VerifByteReader }
+
+func (verifFileReader) Stop() error { return nil }
+func (verifFileReader) Close()      {}
+
+// VerifNewReader returns the Unix Reader implementation reading from rd
+// instead of a terminal file.
+func VerifNewReader(rd VerifByteReader) Reader {
+	return &reader{verifFileReader{rd}}
+}
+
+// VerifReadEvent calls readEvent.
+func VerifReadEvent(rd VerifByteReader) (Event, error) { return readEvent(rd) }
+
+// VerifReadRune calls readRune.
+func VerifReadRune(rd VerifByteReader, timeout time.Duration) (rune, error) {
+	return readRune(rd, timeout)
+}
+
+// VerifErrTimeout returns the error a byte source reports on a timeout.
+func VerifErrTimeout() error { return errTimeout }
+
+// VerifSeqError takes a seqError apart.
+func VerifSeqError(err error) (msg, seq string, ok bool) {
+	e, ok := err.(seqError)
+	return e.msg, e.seq, ok
+}
+
+// VerifTimeouts returns the per-byte timeouts used inside a sequence.
+func VerifTimeouts() (keySeq, utf8Seq time.Duration) {
+	return keySeqTimeout, utf8SeqTimeout
+}
+
+// VerifKeyTables returns the key sequence tables.
+func VerifKeyTables() (g3, byLast map[rune]ui.Key, tilde, tilde27 map[int]rune) {
+	return g3Seq, csiSeqByLast, csiSeqTilde, csiSeqTilde27
+}
